@@ -239,10 +239,24 @@ def spec_team(Y, Dm, n, days, pen, t):
 
 
 def _run_step(step, args, y, D, pen, team, days, n, L0):
-    kw = dict(bye_penalty=pen, current_location=0, day=0, days=days, distances=D, length=L0, next_location=0,
-              team=team, teams=n, y=y)
-    out = step(**{a: kw[a] for a in args})
-    return out["length"]
+    # arguments by role (names read from the source); every other local of the loop body is a temporary (written before read)
+    import ast
+    import moptipyapps.ttp.plan_length as pl
+    fd, _ = xform.parse_fn(pl.game_plan_length)
+    params = [a.arg for a in fd.args.args]
+    b = xform.body_wo_doc(fd)
+    outer = [x for x in b if isinstance(x, (ast.For, ast.While))][0]
+    acc = [n_.id for n_ in ast.walk(b[-1]) if isinstance(n_, ast.Name) and n_.id != "int"][0]
+    kw = {params[0]: y, params[1]: D, params[2]: pen, outer.target.id: team, acc: L0}
+    R = roles()
+    if R is not None:
+        kw.update({R["days"]: days, R["teams"]: n})
+    else:       # number of days / teams: any name the prologue derives from y.shape; the unpacking order is (days, teams)
+        for st in b:
+            if isinstance(st, ast.Assign) and isinstance(st.targets[0], ast.Tuple) and "shape" in ast.unparse(st.value):
+                kw.update({st.targets[0].elts[0].id: days, st.targets[0].elts[1].id: n})
+    out = step(**{a: kw.get(a, 0) for a in args})
+    return out[acc]
 
 
 def job_team_step(n, rounds, clause, timeout_s=300, dmax=DMAX):
@@ -299,36 +313,100 @@ def job_team_step(n, rounds, clause, timeout_s=300, dmax=DMAX):
                             answer="unsat for every team"))
 
 
-def _blocks():
-    """pieces of the real kernel: prologue, outer-body prefix, day body, outer-body suffix, epilogue"""
+_ROLES = {}
+
+
+def roles():
+    """The kernel's loop structure and the NAMES of its variables by role (plan, distances, penalty, team, day, number of days /
+    teams, running total, current location), inferred from the working tree's source and two concrete probe runs - so that renaming
+    locals, `for` <-> `while`, or moving code into helper kernels does not matter.  None if the structure is not
+    prologue; for team: (prefix; day loop; suffix); return total."""
+    if "r" in _ROLES:
+        return _ROLES["r"]
+    _ROLES["r"] = None
     import ast
+    import numpy as np
     import moptipyapps.ttp.plan_length as pl
-    fd, _ = xform.parse_fn(pl.game_plan_length)
-    b = xform.body_wo_doc(fd)
-    ok = (len(b) >= 3 and isinstance(b[-1], ast.Return) and isinstance(b[-2], ast.For)
-          and all(not isinstance(x, (ast.For, ast.While)) for x in b[:-2]))
-    outer = b[-2] if ok else None
-    if ok:
-        ok = (isinstance(outer.target, ast.Name) and outer.target.id == "team" and ast.unparse(outer.iter) == "range(teams)"
-              and not outer.orelse)
-    inner_idx = None
-    if ok:
-        idx = [i for i, x in enumerate(outer.body) if isinstance(x, (ast.For, ast.While))]
-        ok = len(idx) == 1 and isinstance(outer.body[idx[0]], ast.For)
-        if ok:
-            inner_idx = idx[0]
-            inner = outer.body[inner_idx]
-            ok = (isinstance(inner.target, ast.Name) and inner.target.id == "day" and ast.unparse(inner.iter) == "range(days)"
-                  and not inner.orelse)
-    if not ok:
-        return None
     f = pl.game_plan_length
-    return dict(
+    fd, _ = xform.parse_fn(f)
+    params = [a.arg for a in fd.args.args]
+    b = xform.body_wo_doc(fd)
+    loops = [i for i, x in enumerate(b) if isinstance(x, (ast.For, ast.While))]
+    if len(params) != 3 or len(loops) != 1 or loops[0] != len(b) - 2 or not isinstance(b[-1], ast.Return):
+        return None
+    outer = b[-2]
+    if not (isinstance(outer, ast.For) and isinstance(outer.target, ast.Name) and not outer.orelse):
+        return None
+    inner_ix = [i for i, x in enumerate(outer.body) if isinstance(x, (ast.For, ast.While))]
+    if len(inner_ix) != 1 or outer.body[inner_ix[0]].orelse:
+        return None
+    ii = inner_ix[0]
+    inner = outer.body[ii]
+    ret_names = [n.id for n in ast.walk(b[-1]) if isinstance(n, ast.Name) and n.id not in ("int",)]
+    if len(ret_names) != 1:
+        return None
+    r = dict(y=params[0], distances=params[1], bye_penalty=params[2], team=outer.target.id, acc=ret_names[0], inner_is_for=isinstance(inner, ast.For))
+    blocks = dict(
         prologue=xform.extract_block(f, lambda d: xform.body_wo_doc(d)[:-2], name="prologue"),
-        prefix=xform.extract_block(f, lambda d: xform.body_wo_doc(d)[-2].body[:inner_idx], name="prefix"),
-        day=xform.extract_block(f, lambda d: xform.body_wo_doc(d)[-2].body[inner_idx].body, name="day"),
-        suffix=xform.extract_block(f, lambda d: xform.body_wo_doc(d)[-2].body[inner_idx + 1:], name="suffix"),
+        prefix=xform.extract_block(f, lambda d: xform.body_wo_doc(d)[-2].body[:ii], name="prefix"),
+        day=xform.extract_block(f, lambda d: xform.body_wo_doc(d)[-2].body[ii].body, name="day"),
+        suffix=xform.extract_block(f, lambda d: xform.body_wo_doc(d)[-2].body[ii + 1:], name="suffix"),
         epilogue=xform.extract_block(f, lambda d: xform.body_wo_doc(d)[-1:], name="epilogue"))
+    # probe 1: the prologue on a 5 x 3 plan tells which locals hold the number of days / teams
+    from symx.core import Engine, const_array
+    got = {}
+
+    def probe(eng):
+        yy = const_array("py", np.zeros((5, 3), dtype=np.int64))
+        dd = const_array("pd", np.zeros((3, 3), dtype=np.int64))
+        got["pro"] = xform.call_block(blocks["prologue"], **{r["y"]: yy, r["distances"]: dd, r["bye_penalty"]: 7})
+        base = {r["y"]: yy, r["distances"]: dd, r["bye_penalty"]: 7, r["team"]: 2}
+        base.update({k: v for k, v in got["pro"].items() if v is not None})
+        got["pre"] = xform.call_block(blocks["prefix"], **base)
+    try:
+        Engine(timeout_ms=10000).explore(probe)
+    except Exception:
+        return None
+    pro, pre = got.get("pro") or {}, got.get("pre") or {}
+    days_n = [k for k, v in pro.items() if isinstance(v, int) and v == 5]
+    teams_n = [k for k, v in pro.items() if isinstance(v, int) and v == 3]
+    loc_n = [k for k, v in pre.items() if isinstance(v, int) and v == 2 and k != r["team"]]
+    if len(days_n) != 1 or len(teams_n) != 1 or len(loc_n) != 1 or pro.get(r["acc"]) != 0:
+        return None
+    r.update(days=days_n[0], teams=teams_n[0], loc=loc_n[0])
+    if r["inner_is_for"]:
+        if not isinstance(inner.target, ast.Name):
+            return None
+        r["day"] = inner.target.id
+    else:
+        t = inner.test
+        if not (isinstance(t, ast.Compare) and len(t.ops) == 1 and isinstance(t.left, ast.Name) and isinstance(t.comparators[0], ast.Name)):
+            return None
+        names = {t.left.id, t.comparators[0].id}
+        if r["days"] not in names or len(names) != 2:
+            return None
+        r["day"] = (names - {r["days"]}).pop()
+    r["blocks"] = blocks
+    _ROLES["r"] = r
+    return r
+
+
+def _kw(r, **by_role):
+    """keyword arguments for a block: role -> the kernel's own variable name"""
+    return {r[k]: v for k, v in by_role.items()}
+
+
+def _fallback_team_steps(n, rounds):
+    """the kernel does not have the prologue / team loop (prefix, day loop, suffix) / return shape: decide the same clauses
+    by the coarser induction over the team loop only (one whole team walk per query)"""
+    r1 = job_team_step(n, rounds, "definition", timeout_s=600)
+    if r1.get("status") != "held":
+        return r1
+    r2 = job_team_step(n, rounds, "bounds", timeout_s=600)
+    if r2.get("status") != "held":
+        return r2
+    r2["summary"] = "FALLBACK (kernel structure not recognised by the per-day decomposition): team-loop induction, definition and bounds: " + str(r2.get("summary"))
+    return r2
 
 
 def job_compositional(n, rounds, timeout_s=120):
@@ -339,9 +417,10 @@ def job_compositional(n, rounds, timeout_s=120):
     (b) re-establish Inv."""
     from symx.core import Engine
     gl, init, ubf, lbf, Instance = _kernels()
-    bl = _blocks()
-    if bl is None:
-        return inconclusive("structure of game_plan_length changed: the compositional harness does not apply")
+    R = roles()
+    if R is None:
+        return _fallback_team_steps(n, rounds)
+    bl = R["blocks"]
     days = (n - 1) * rounds
     results = []
     failures = []
@@ -383,8 +462,8 @@ def job_compositional(n, rounds, timeout_s=120):
     def p1(eng):
         y, D, obj, pen, cons, M = setup()
         eng.assume(z3.And(*cons))
-        out = xform.call_block(bl["prologue"], y=y, distances=D, bye_penalty=pen)
-        eng.oblige(z3.And(lift(out["days"]) == days, lift(out["teams"]) == n, lift(out["length"]) == 0), "prologue: days, teams, length=0", now=True)
+        out = xform.call_block(bl["prologue"], **_kw(R, y=y, distances=D, bye_penalty=pen))
+        eng.oblige(z3.And(lift(out[R["days"]]) == days, lift(out[R["teams"]]) == n, lift(out[R["acc"]]) == 0), "prologue: days, teams, length=0", now=True)
     check("prologue", p1)
 
     # 2. prefix: start at home
@@ -392,11 +471,11 @@ def job_compositional(n, rounds, timeout_s=120):
         y, D, obj, pen, cons, M = setup()
         team = fresh_int("team")
         eng.assume(z3.And(*cons, team.e >= 0, team.e < n))
-        out = xform.call_block(bl["prefix"], y=y, distances=D, bye_penalty=pen, team=team, teams=n, days=days,
-                               length=fresh_int("L0"), current_location=fresh_int("cl"), next_location=fresh_int("nl"), day=0)
-        eng.oblige(lift(out["current_location"]) == team.e, "prefix: team starts at home", now=True)
-        if "length" in out and out["length"] is not None:
-            eng.oblige(lift(out["length"]) == z3.Int("L0"), "prefix: length unchanged", now=True)
+        out = xform.call_block(bl["prefix"], **_kw(R, y=y, distances=D, bye_penalty=pen, team=team, teams=n, days=days,
+                                                   acc=fresh_int("L0"), loc=fresh_int("cl"), day=0))
+        eng.oblige(lift(out[R["loc"]]) == team.e, "prefix: team starts at home", now=True)
+        if out.get(R["acc"]) is not None:
+            eng.oblige(lift(out[R["acc"]]) == z3.Int("L0"), "prefix: length unchanged", now=True)
     check("prefix", p2)
 
     # 3. day body
@@ -406,14 +485,16 @@ def job_compositional(n, rounds, timeout_s=120):
         penz = lift(pen)
         inv = z3.And(loc.e >= 0, loc.e < n, Lt.e >= 0, Lt.e <= day.e * penz - z3.If(loc.e != team.e, M + 1, 0))
         eng.assume(z3.And(*cons, team.e >= 0, team.e < n, day.e >= 0, day.e < days, inv, penz == 2 * M + 1))
-        out = xform.call_block(bl["day"], y=y, distances=D, bye_penalty=pen, team=team, teams=n, days=days,
-                               length=L0, current_location=loc, next_location=fresh_int("nl"), day=day)
+        out = xform.call_block(bl["day"], **_kw(R, y=y, distances=D, bye_penalty=pen, team=team, teams=n, days=days,
+                                                acc=L0, loc=loc, day=day))
         eng.flush()
         v = sel_y(y, day.e, team.e)
         nxt = z3.If(v < 0, -v - 1, z3.If(v > 0, team.e, loc.e))
         inc = z3.If(v == 0, penz, dist(D, loc.e, nxt))
-        L1 = lift(out["length"]) if out.get("length") is not None else L0.e
-        loc1 = lift(out["current_location"]) if out.get("current_location") is not None else loc.e
+        L1 = lift(out[R["acc"]]) if out.get(R["acc"]) is not None else L0.e
+        loc1 = lift(out[R["loc"]]) if out.get(R["loc"]) is not None else loc.e
+        if not R["inner_is_for"]:
+            eng.oblige(lift(out[R["day"]]) == day.e + 1, "day step advances the day counter by one", now=True)
         eng.oblige(L1 - L0.e == inc, "day step adds the walk step", now=True)
         eng.oblige(loc1 == nxt, "day step moves to the venue / stays", now=True)
         Lt1 = Lt.e + inc
@@ -428,11 +509,11 @@ def job_compositional(n, rounds, timeout_s=120):
         penz = lift(pen)
         inv = z3.And(loc.e >= 0, loc.e < n, Lt.e >= 0, Lt.e <= days * penz - z3.If(loc.e != team.e, M + 1, 0))
         eng.assume(z3.And(*cons, team.e >= 0, team.e < n, inv, penz == 2 * M + 1))
-        out = xform.call_block(bl["suffix"], y=y, distances=D, bye_penalty=pen, team=team, teams=n, days=days,
-                               length=L0, current_location=loc, next_location=fresh_int("nl"), day=days - 1)
+        out = xform.call_block(bl["suffix"], **_kw(R, y=y, distances=D, bye_penalty=pen, team=team, teams=n, days=days,
+                                                   acc=L0, loc=loc, day=days - 1 if R["inner_is_for"] else days))
         eng.flush()
         inc = dist(D, loc.e, team.e)
-        L1 = lift(out["length"]) if out.get("length") is not None else L0.e
+        L1 = lift(out[R["acc"]]) if out.get(R["acc"]) is not None else L0.e
         eng.oblige(L1 - L0.e == inc, "suffix adds the trip home", now=True)
         eng.oblige(z3.And(Lt.e + inc >= 0, Lt.e + inc <= days * penz), "team total within [0, days*penalty]", now=True)
         eng.oblige(z3.And(lift(lbf(obj)) <= 0, n * days * penz <= lift(ubf(obj))), "n team totals fit the declared bounds", now=True)
@@ -443,7 +524,7 @@ def job_compositional(n, rounds, timeout_s=120):
         y, D, obj, pen, cons, M = setup()
         L = fresh_int("L")
         eng.assume(z3.And(*cons))
-        out = xform.call_block(bl["epilogue"], length=L, y=y, distances=D, bye_penalty=pen, days=days, teams=n)
+        out = xform.call_block(bl["epilogue"], **_kw(R, acc=L, y=y, distances=D, bye_penalty=pen, days=days, teams=n))
         eng.oblige(lift(out["_ret_"]) == L.e, "returns the accumulated length", now=True)
     check("epilogue", p5)
 
@@ -451,7 +532,7 @@ def job_compositional(n, rounds, timeout_s=120):
     q = dict(unsat=sum(e.n_unsat for e in results), sat=sum(e.n_sat for e in results), unknown=sum(e.unknown for e in results))
     st = round(sum(e.t_solver for e in results), 2)
     common = dict(paths=paths, queries=q, solver_s=st,
-                  sample=dict(pieces={k: v._src for k, v in bl.items()}, n=n, rounds=rounds),
+                  sample=dict(pieces={k: v._src for k, v in bl.items()}, roles={k: v for k, v in R.items() if k != "blocks"}, n=n, rounds=rounds),
                   summary=f"compositional n={n} rounds={rounds}: 5 pieces, {paths} paths, failures={len(failures)}")
     if failures:
         name, label, model = failures[0]
